@@ -95,7 +95,10 @@ def restamped(rng):
         # one record (not the last one) that no reader can render. What is stored after it must still be printed -- as far as
         # the independent reader can render it: a record may lean on a template defined inside the torn one
         torn = rng.randrange(0, nrec - 1)
+        untorn = data
         data = evtxmut.tear_record(data, torn)
+        if not dump_bytes(data, allow_err=True):
+            data, torn = untorn, None      # (nothing at all can be rendered once that record is gone: not a useful input)
     stale = None
     if rng.random() < 0.3:
         # a "dirty" log: stored chunk checksums that no longer match (records intact)
